@@ -71,9 +71,20 @@ def _build_in(d, release, tag):
 def run_requests(binary, reqs):
     def esc(s):
         return s.replace('\\', '\\\\').replace('\n', '\\n').replace('\t', '\\t').replace('\r', '\\r')
-    inp = ''.join('\t'.join(esc(x) for x in r) + '\n' for r in reqs)
-    r = subprocess.run([binary], input=inp.encode('utf-8'), stdout=subprocess.PIPE, stderr=subprocess.PIPE, timeout=600)
-    stdout = r.stdout.decode('utf-8', 'replace')
+    # a request that does not return within the replayer's limit ends that process with a HANG line: it is restarted on the rest
+    stdout_parts, rest, restarts = [], list(reqs), 0
+    while rest and restarts < 25:
+        inp = ''.join('\t'.join(esc(x) for x in r) + '\n' for r in rest)
+        r = subprocess.run([binary], input=inp.encode('utf-8'), stdout=subprocess.PIPE, stderr=subprocess.PIPE, timeout=3600)
+        out = r.stdout.decode('utf-8', 'replace')
+        lines = [l for l in out.split('\n') if l]
+        stdout_parts += lines
+        if r.returncode == 3 and lines and lines[-1].startswith('HANG'):
+            rest = rest[len(lines):]
+            restarts += 1
+        else:
+            break
+    stdout = '\n'.join(stdout_parts)
 
     def unesc(s):
         out, i = [], 0
@@ -83,7 +94,9 @@ def run_requests(binary, reqs):
             else:
                 out.append(s[i]); i += 1
         return ''.join(out)
-    return [[unesc(x) for x in l.split('\t')] for l in stdout.split('\n') if l]
+    res = [[unesc(x) for x in l.split('\t')] for l in stdout.split('\n') if l]
+    # "never a crash or hang": an answer that does not come is treated like a panic by every oracle
+    return [(['PANIC', 'HANG: ' + ' '.join(g[1:])] if g and g[0] == 'HANG' else g) for g in res]
 
 
 # ------------------------------------------------------------------------------------------------
@@ -257,6 +270,13 @@ def family_table():
                     return True
             return False
         yield dict(op='compile', input=inp, expect='table = %s, each under the tag of its printer definition' % want, bad=bad)
+        if len(combo) <= 2:
+            # routing does not depend on the run options; the whole program must also keep its structure (names bound once, …)
+            for pre in ('-threads 1 ', '-depth -threads 2 '):
+                def bad2(g, bad=bad):
+                    return bad(g) or (g[0] == 'OK' and program_defects(g[1], g[2] if len(g) > 2 else '') is not None)
+                yield dict(op='compile', input=pre + inp + ' -o -print', expect='table = %s + standard output, names bound once' % want,
+                           bad=(lambda g: g[0] == 'OK' and program_defects(g[1], g[2] if len(g) > 2 else '') is not None))
 
 
 def family_options():
@@ -895,6 +915,12 @@ def family_long():
         yield case(' '.join('-fprint f%d' % i for i in range(k)), [fdest(i) for i in range(k)])
     for n, k in ((40, 50), (10, 20), (100, 60), (126, 3)):
         yield case(' '.join('-name a%d' % i for i in range(n)) + ' ' + ' '.join('-fprint f%d' % i for i in range(k)), [fdest(i) for i in range(k)])
+    # nesting up to the bound of C03 (depth 64): work that doubles per level never returns (reported as a hang, treated like a panic)
+    for d in (8, 16, 24, 32, 40, 48, 64):
+        for inp in ('! ' * d + '-name x', '( ' * d + '-name x' + ' )' * d, '! ( ' * d + '-name x' + ' )' * d,
+                    ''.join('! ( -name a%d -o ' % i for i in range(d)) + '-true' + ' )' * d, ''.join('( -name a%d -a ' % i for i in range(d)) + '-print0' + ' )' * d):
+            if len(inp.encode()) < 4096:
+                yield dict(op='compile', input=inp, expect='an answer (within 20 s), never a panic', bad=lambda g: g[0] == 'PANIC')
     # a printer first requested after the counter passed 255, with earlier printers live (and repeats of earlier destinations)
     yield case('-fprint f0 -fprint f1 ' + ' '.join('-name a%d' % i for i in range(127)) + ' -fprint f2 -fprint f0 -fprint f1', [fdest(0), fdest(1), fdest(2), fdest(0), fdest(1)])
     yield case('-fprint f0 ' + ' '.join('-iname a%d -fprint f%d' % (i, i + 1) for i in range(130)), [fdest(i) for i in range(131)])
